@@ -157,6 +157,24 @@ func c16Txs() []c16Tx {
 	cs = gen.StdCase(world.London, p0, "call", 100000)
 	cs.Note = "london plain (PUSH0 invalid)"
 	out = append(out, c16Tx{Name: cs.Note, Case: cs})
+	// EIPs that reprice instructions in place (not only add one), each on the fork before its activation, next to
+	// the same program on the plain fork: an instruction table shared between configurations shows as a gas change
+	rp := asm.New().Push(0).Op(asm.SLOAD, asm.POP).Push(7).Push(1).Op(asm.SSTORE).Push(0).Push(1).Op(asm.SSTORE)
+	rp.PushAddr(gen.CRet).Op(asm.BALANCE, asm.POP).PushAddr(gen.CRet).Op(asm.EXTCODEHASH, asm.POP)
+	rp.Push(64).Push(0).Push(0).Op(asm.CREATE, asm.POP)
+	rp.Op(asm.GAS).Push(0).Op(asm.MSTORE).Push(32).Push(0).Op(asm.RETURN)
+	for _, e := range []struct {
+		eip  int
+		fork world.Fork
+	}{{1884, world.Petersburg}, {2200, world.Petersburg}, {2929, world.Istanbul}, {3529, world.Berlin}, {3860, world.London}} {
+		cs = gen.StdCase(e.fork, rp.Bytes(), "call", 500000)
+		cs.ExtraEips = []int{e.eip}
+		cs.Note = fmt.Sprintf("repriced ops on %s+eip%d", e.fork, e.eip)
+		out = append(out, c16Tx{Name: cs.Note, Case: cs})
+		cs = gen.StdCase(e.fork, rp.Bytes(), "call", 500000)
+		cs.Note = fmt.Sprintf("repriced ops on plain %s (next to eip%d)", e.fork, e.eip)
+		out = append(out, c16Tx{Name: cs.Note, Case: cs})
+	}
 	// context-write precompile: a direct CALL from one contract, a STATICCALL / DELEGATECALL from another
 	var payload []byte
 	mc.Replay(nil, func(c *mc.Ctx) { payload = gen.ExplorePayload66(c, 192) })
@@ -342,7 +360,7 @@ func init() {
 		ID:        "C16",
 		Level:     "model_checking",
 		Technique: "exhaustive enumeration of Go map-iteration start offsets (a seam put into the runtime by a build overlay; every `range` over a map executed by the code under test is a choice point, deviation-bounded) during execution and during every recorder query; exhaustive enumeration of transaction histories (all sequences up to length 3 over a transaction set touching every package-level value) and of two-EVM invocation interleavings; canonical serialisations with lists in returned order must be identical",
-		Rule: "(a) map order: recorder transactions creating 2-8 children / index keys / change indices per node (one with members packed four to a storage slot); all executions with <= 1 non-zero iteration offset during the EVM execution and all with <= 2 during the queries (Children, ChildrenIndices, IndicesOfChanges, Changes, ChildrenOf, balances, call tree); serialisation identical across all offset vectors. (b) histories: T = 17 transactions (recorder, reference journals over empty/short/long strings, arithmetic over the shared constants, precompiles + CREATE + SELFDESTRUCT + LOG, extra-EIP and plain London tables, Cancun additions); every sequence over T of length <= L in one process, each element on a fresh EVM and equal pre-state: every transaction has exactly one serialisation across all contexts. (c) isolation: two live EVMs, 2 invocations each, all 6 interleavings: each EVM's views equal its solo views. non-trivial = distinct executions in which a map with >= 2 entries was iterated with a non-zero offset, or histories of length >= 2",
+		Rule: "(a) map order: recorder transactions creating 2-8 children / index keys / change indices per node (one with members packed four to a storage slot); all executions with <= 1 non-zero iteration offset during the EVM execution and all with <= 2 during the queries (Children, ChildrenIndices, IndicesOfChanges, Changes, ChildrenOf, balances, call tree); serialisation identical across all offset vectors. (b) histories: T = 27 transactions (recorder, reference journals over empty/short/long strings, arithmetic over the shared constants, precompiles + CREATE + SELFDESTRUCT + LOG, extra-EIP and plain London tables, five repricing EIPs each next to the plain fork, Cancun additions); every sequence over T of length <= L in one process, each element on a fresh EVM and equal pre-state: every transaction has exactly one serialisation across all contexts. (c) isolation: two live EVMs, 2 invocations each, all 6 interleavings: each EVM's views equal its solo views. non-trivial = distinct executions in which a map with >= 2 entries was iterated with a non-zero offset, or histories of length >= 2",
 		Assumptions: []string{"maps with more than 8 entries (more than one bucket) are outside the enumerated offsets", "requires the vcheck-map binary (runtime overlay); without it only (b) and (c) run and the evidence says so"},
 		Bounds: func(t string) map[string]any {
 			return map[string]any{"exec_offset_deviation_bound": 1, "query_offset_deviation_bound": 2, "history_length": map[string]int{"quick": 3, "thorough": 4}[t], "transactions": len(c16Txs()), "map_hook": maphook.Enabled}
